@@ -400,7 +400,8 @@ func (a *E3) doCall(fn *ssa.Function, instr ssa.Instruction, c *ssa.CallCommon, 
 					a.set(res, t|oFRESH)
 				}
 			} else if res != nil {
-				a.set(res, a.get(c.Args[0])|a.get(c.Args[1]))
+				// the result is the first operand's storage or a fresh array; the appended elements are copied (their origins go to the cell)
+				a.set(res, a.get(c.Args[0])|oFRESH)
 				a.addCell(a.cellOf(res), a.cell[a.cellOf(c.Args[0])]|a.get(c.Args[1])|a.cell[a.cellOf(c.Args[1])])
 			}
 		case "copy":
@@ -521,6 +522,13 @@ func (a *E3) analyze(fn *ssa.Function) {
 				}
 				a.set(p, paramBit(idx))
 				a.addCell(p, paramBit(idx))
+			} else if _, ok := p.Type().Underlying().(*types.Slice); ok {
+				// any other slice handed in: its storage is the caller's argument (private helpers building typed slices)
+				idx := i
+				if !isMethod {
+					idx = i + 1
+				}
+				a.set(p, paramBit(idx))
 			} else {
 				a.set(p, oUSER)
 			}
